@@ -23,8 +23,8 @@
    * the shutdown waits of bufferer.Destroy / collectLeftovers do not hit their own time-outs (EFeederEnd,
      EClientDone, EStopped are taken only when their loops have drained: C18's subject). *)
 From Coq Require Import List NArith Bool.
-From SV Require Import Model.Common Model.System Model.SystemAccept
-  Proofs.SystemLists Proofs.SystemProofs Proofs.SystemAlo Proofs.SystemAcceptProofs.
+From SV Require Import Model.Common Model.System Model.SystemAccept Model.SystemConnEnd
+  Proofs.SystemLists Proofs.SystemProofs Proofs.SystemAlo Proofs.SystemAcceptProofs Proofs.SystemConnEndProofs.
 Import ListNotations.
 
 (* Conservation, in every reachable state: every record read is in at least one location; nothing is anywhere
@@ -100,3 +100,107 @@ Theorem C01_example :
     length (ingested s) = 4 /\ length (toks_of_chunks (acked s)) = 3 /\ files s = [] /\ length (filtered s) = 1.
 Proof. exact example_run. Qed.
 Print Assumptions C01_example.
+
+(* ---------- the end of a connection in the order of the code; graceful stop with OPEN connections ----------
+   Model/SystemConnEnd.v: runConnection's ending is a program over three operations on the state of Model/System.v —
+   [OpFlushAll] (mlineReader.FlushAll: the line reader's last record is parsed into the sink batch), [OpFlush]
+   (recvChan.Flush = sendBuffer: the batch goes to the per-key buffers), [OpClose] (deferred recvChan.Close: the per-key
+   buffers go to the pipeline channels; whatever the batch or the reader still hold is DISCARDED) — one program for
+   the path "closed by the stop request" ([VConnEndStop]) and one for the peer path (EOF / reset / read error).
+   [vsteps v] is the agent with the two programs [v] as parameters. *)
+
+(* Refinement: FlushAll; Flush; Close, in this order, IS the atomic [EConnEnd] of Model/System.v (in every state in
+   which the pipelines of the per-key buffers exist, an invariant of all reachable states). *)
+Theorem C01_conn_end_refines :
+  forall k s, (forall t, In t (key_buf s) -> In (t_pipe t) (pipes s)) -> mem_nat k (open_conns s) = true ->
+    step s (EConnEnd k) = Some (run_end faithful_prog k s).
+Proof. exact faithful_end_refines. Qed.
+Print Assumptions C01_conn_end_refines.
+
+(* In EVERY state: after the code-order ending of connection k nothing of k is left in the line reader, the batch or
+   the per-key buffers, everything it held there is in the pipeline channels, other connections are untouched. *)
+Theorem C01_conn_end_hands_everything_on :
+  forall k s, let s' := run_end faithful_prog k s in
+  (forall t, on_conn k t = true -> ~ In t (conn_buf s') /\ ~ In t (sink_batch s') /\ ~ In t (key_buf s')) /\
+  (forall t, on_conn k t = true -> In t (conn_buf s ++ sink_batch s ++ key_buf s) -> In t (toks_of_batches (chans s'))) /\
+  (forall t, on_conn k t = false ->
+     (In t (conn_buf s') <-> In t (conn_buf s)) /\ (In t (sink_batch s') <-> In t (sink_batch s)) /\
+     (In t (key_buf s') <-> In t (key_buf s))) /\
+  (forall t, In t (toks_of_batches (chans s)) -> In t (toks_of_batches (chans s'))).
+Proof. exact faithful_end_local. Qed.
+Print Assumptions C01_conn_end_hands_everything_on.
+
+(* Every run of the agent with the code-order endings — connections ended by their peer at any time or still open
+   and closed by the stop request, in any interleaving with everything else — is a run of Model/System.v ... *)
+Theorem C01_open_conn_runs_are_runs :
+  forall ves s, vsteps faithful init ves = Some s -> steps init (map erase ves) = Some s.
+Proof. intros ves s. apply vsteps_faithful_steps. exact aux_init. Qed.
+Print Assumptions C01_open_conn_runs_are_runs.
+
+(* ... so at every Stopped state the line reader, the batch and the per-key buffers of every connection are empty
+   and no connection is open ... *)
+Theorem C01_stopped_batches_empty :
+  forall ves s, vsteps faithful init ves = Some s -> phase s = Stopped ->
+    conn_buf s = [] /\ sink_batch s = [] /\ key_buf s = [] /\ open_conns s = [].
+Proof. exact conn_end_stopped_batches_empty. Qed.
+Print Assumptions C01_stopped_batches_empty.
+
+(* ... and AT LEAST ONCE holds: every record read — including those of the last burst of a connection that was still
+   open at the stop — and not filtered is acknowledged, in a queue file, or in a counted-dropped chunk. *)
+Theorem C01_at_least_once_open_conns :
+  forall ves s, vsteps faithful init ves = Some s -> vno_timeout ves = true -> phase s = Stopped ->
+  forall t, In t (ingested s) -> t_keep t = true ->
+    In t (toks_of_chunks (acked s)) \/ In t (toks_of_chunks (files s)) \/ In t (toks_of_chunks (dropped s)).
+Proof. exact conn_end_at_least_once. Qed.
+Print Assumptions C01_at_least_once_open_conns.
+
+(* The theorem depends on the mechanism.  Without the final Flush on the stop path (`return` after FlushAll, the
+   deferred Close still runs — seeded change C01/5) a record read on a connection that is open at the stop is in no
+   location at all afterwards: not acknowledged, not in a file, not counted; also when it was already in the batch. *)
+Theorem C01_no_flush_on_stop_variant_refuted :
+  (exists s t, vsteps no_flush_on_stop init witness_run = Some s /\ vno_timeout witness_run = true /\ phase s = Stopped /\
+               In t (ingested s) /\ t_keep t = true /\ ~ In t (safe s) /\ ~ In t (anywhere s)) /\
+  (exists s t, vsteps no_flush_on_stop init witness_run2 = Some s /\ vno_timeout witness_run2 = true /\ phase s = Stopped /\
+               In t (ingested s) /\ t_keep t = true /\ ~ In t (safe s) /\ ~ In t (anywhere s)).
+Proof. exact (conj no_flush_on_stop_loses no_flush_on_stop_loses_batched). Qed.
+Print Assumptions C01_no_flush_on_stop_variant_refuted.
+
+(* Likewise without FlushAll on the stop path, and with Flush BEFORE FlushAll (the reader's last record reaches the
+   batch after the batch was sent). *)
+Theorem C01_misplaced_flush_variants_refuted :
+  loses no_flush_all_on_stop witness_run /\ loses flush_before_flush_all witness_run.
+Proof. exact (conj no_flush_all_on_stop_loses flush_before_flush_all_loses). Qed.
+Print Assumptions C01_misplaced_flush_variants_refuted.
+
+(* Why scenarios without an open connection at the stop cannot see such a change: a variant whose PEER path is the
+   faithful program behaves exactly like Model/System.v on every run in which no connection is closed by the stop
+   request. *)
+Theorem C01_stop_path_variants_need_open_conn :
+  forall v, peer_path v = faithful_prog ->
+  forall ves s, no_stop_end ves = true -> vsteps v init ves = Some s -> steps init (map erase ves) = Some s.
+Proof. intros v HP ves s. apply (peer_faithful_blind v HP ves init s aux_init). Qed.
+Print Assumptions C01_stop_path_variants_need_open_conn.
+
+(* The faithful agent on the witness: the record ends in a queue file. *)
+Theorem C01_open_conn_example :
+  vsteps faithful init witness_run = None /\
+  exists s, vsteps faithful init witness_run_faithful = Some s /\ phase s = Stopped /\
+            In witness_tok (toks_of_chunks (files s)).
+Proof. exact faithful_witness. Qed.
+Print Assumptions C01_open_conn_example.
+
+(* Case kind 3 (stop with open connections): the state printed by the model is reached by a run of the agent from
+   [init] that never takes the channel-timeout branch, and whenever it is a Stopped state every kept record read is
+   in a final location — for every case line. *)
+Theorem C01_stop_case_run_sound :
+  forall v c, vsteps v init (rev (snd (run_stop_scenario v c))) = Some (fst (run_stop_scenario v c)) /\
+              vno_timeout (rev (snd (run_stop_scenario v c))) = true.
+Proof. intros v c. split; [apply run_stop_scenario_sound|apply run_stop_scenario_no_timeout]. Qed.
+Print Assumptions C01_stop_case_run_sound.
+
+Theorem C01_stop_case_prediction_alo :
+  forall c, let s := fst (run_stop_scenario faithful c) in phase s = Stopped ->
+  forall t, In t (ingested s) -> t_keep t = true ->
+    In t (toks_of_chunks (acked s)) \/ In t (toks_of_chunks (files s)) \/ In t (toks_of_chunks (dropped s)).
+Proof. exact stop_scenario_alo. Qed.
+Print Assumptions C01_stop_case_prediction_alo.
